@@ -45,9 +45,23 @@ def gen_pair(rng, tier):
     nr = rng.choice([0, 1, 2, 3, 4, 5, rng.randint(0, big)])
     left = {"n": nl, "cols": [{"name": lnames[j], "kind": kinds[j], "vals": [rng.choice(pools[j]) for _ in range(nl)]} for j in range(k)]}
     right = {"n": nr, "cols": [{"name": rnames[j], "kind": kinds[j], "vals": [rng.choice(pools[j]) for _ in range(nr)]} for j in range(k)]}
+    for j in range(k):
+        if kinds[j] == "date" and rng.random() < 0.5:
+            # the same instants in another unit on one side (a date column joined with a timestamp column), some of them
+            # not at midnight: equal keys are equal instants (fixed c09ead9: they never matched)
+            side = rng.choice([left, right])
+            c = side["cols"][j]
+            c["kind"] = "datetime"
+            c["vals"] = [None if v is None else v * 86400000000 + rng.choice([0, 0, 0, 45000000000]) for v in c["vals"]]
     left["cols"].append({"name": "lp", "kind": "int", "vals": [rng.randint(0, 9) for _ in range(nl)]})
     pk = rng.choice(["int", "int32", "float", "str", "bool", "date"])
     right["cols"].append({"name": "rp", "kind": pk, "vals": [rng.choice([v for v in vecgen.POOLS[pk] if not vecgen.is_na_val(pk, v)]) for _ in range(nr)]})
+    if renamed and rng.random() < 0.25:
+        # the right frame owns a NON-key column named like the left key (an `id` of its own next to the `owner` it is joined
+        # by): the left frame's column of that name wins, as for any other name present on both sides
+        extra = {"name": lnames[0], "kind": "int", "vals": [rng.randint(100, 109) for _ in range(nr)]}
+        pos = rng.choice([k, k + 1])
+        right["cols"].insert(pos, extra)
     by = [[a, b] for a, b in zip(lnames, rnames)]
     return left, right, by
 
@@ -114,8 +128,13 @@ def impl(case):
 
 def model_requests(case, obs):
     L, R, by = case["left"], case["right"], case["by"]
-    lk = [vecgen.cells(framegen.col(L, x[0])["kind"], framegen.col(L, x[0])["vals"]) for x in by]
-    rk = [vecgen.cells(framegen.col(R, x[1])["kind"], framegen.col(R, x[1])["vals"]) for x in by]
+    def key_cells(c, other):
+        cells = vecgen.cells(c["kind"], c["vals"])
+        if c["kind"] == "date" and other["kind"] == "datetime":
+            cells = [None if v is None else v * 86400000000 for v in cells]      # compared as instants
+        return cells
+    lk = [key_cells(framegen.col(L, x[0]), framegen.col(R, x[1])) for x in by]
+    rk = [key_cells(framegen.col(R, x[1]), framegen.col(L, x[0])) for x in by]
     return [("join", {"kind": case["op"], "n": L["n"], "m": R["n"], "lkeys": lk, "rkeys": rk})]
 
 
@@ -185,6 +204,9 @@ def judge(ctx, case, obs, mouts):
                         a, b = lcan[c["name"]][i], got[j]
                         if not vecgen.canon_is_na(c["kind"], a) and not vecgen.canon_is_na(c["kind"], b) \
                                 and vecgen.sort_key(c["kind"], a) == vecgen.sort_key(c["kind"], b):
+                            continue
+                        # a date key stacked on top of a timestamp key of the other frame: the same instant in the finer unit
+                        if c["kind"] == "date" and isinstance(a, int) and isinstance(b, int) and a * 86400000000 == b:
                             continue
                     return f"left column {c['name']} changed at output row {j}"
             return None
